@@ -265,6 +265,12 @@ func certTemplate(t *rapid.T) (*gx.Certificate, int) {
 			v, _ := asn1.Marshal(asn1.BitString{Bytes: []byte{0x06}, BitLength: 7}) // keyCertSign|cRLSign
 			c.ExtraExtensions = append(c.ExtraExtensions, pkix.Extension{Id: asn1.ObjectIdentifier{2, 5, 29, 15}, Critical: true, Value: v})
 		}
+		// "ExtraExtensions ... override any extensions that would otherwise be produced based on the other fields": up to two
+		// further id-ce extensions with fixed, well-formed values, whether or not the corresponding field is set
+		for _, k := range rapid.SliceOfNDistinct(rapid.IntRange(0, len(overrideCatalogue)-1), 0, 2, func(i int) int { return i }).Draw(t, "overrides") {
+			o := overrideCatalogue[k]
+			c.ExtraExtensions = append(c.ExtraExtensions, pkix.Extension{Id: o.id, Critical: o.critical, Value: o.value})
+		}
 	}
 	return c, opt
 }
@@ -432,10 +438,56 @@ func otherIssuer(t *rapid.T, s signer) *gx.Certificate {
 	return issuerFor(t, o)
 }
 
+// overrideCatalogue: id-ce extensions handed over through ExtraExtensions, and what the issued certificate must then say
+// in place of the template field of the same extension.
+var overrideCatalogue = []struct {
+	name     string
+	id       asn1.ObjectIdentifier
+	critical bool
+	value    []byte
+	apply    func(want *gx.Certificate)
+}{
+	{"ski", asn1.ObjectIdentifier{2, 5, 29, 14}, false, []byte{0x04, 0x03, 9, 9, 9}, func(w *gx.Certificate) { w.SubjectKeyId = []byte{9, 9, 9} }},
+	{"aki", asn1.ObjectIdentifier{2, 5, 29, 35}, false, []byte{0x30, 0x04, 0x80, 0x02, 7, 7}, func(w *gx.Certificate) { w.AuthorityKeyId = []byte{7, 7} }},
+	{"bc", asn1.ObjectIdentifier{2, 5, 29, 19}, true, []byte{0x30, 0x06, 0x01, 0x01, 0xff, 0x02, 0x01, 0x03}, func(w *gx.Certificate) {
+		w.BasicConstraintsValid, w.IsCA, w.MaxPathLen, w.MaxPathLenZero = true, true, 3, false
+	}},
+	{"eku", asn1.ObjectIdentifier{2, 5, 29, 37}, false, []byte{0x30, 0x0a, 0x06, 0x08, 0x2b, 0x06, 0x01, 0x05, 0x05, 0x07, 0x03, 0x02}, func(w *gx.Certificate) {
+		w.ExtKeyUsage, w.UnknownExtKeyUsage = []gx.ExtKeyUsage{gx.ExtKeyUsageClientAuth}, nil
+	}},
+	{"san", asn1.ObjectIdentifier{2, 5, 29, 17}, false, append([]byte{0x30, 0x12, 0x82, 0x10}, "override.example"...), func(w *gx.Certificate) {
+		w.DNSNames, w.EmailAddresses, w.IPAddresses = []string{"override.example"}, nil, nil
+	}},
+	{"pol", asn1.ObjectIdentifier{2, 5, 29, 32}, false, []byte{0x30, 0x06, 0x30, 0x04, 0x06, 0x02, 0x2a, 0x03}, func(w *gx.Certificate) {
+		w.PolicyIdentifiers = []asn1.ObjectIdentifier{{1, 2, 3}}
+	}},
+}
+
 func eqStrs(a, b []string) bool { return strings.Join(a, "\x00") == strings.Join(b, "\x00") && len(a) == len(b) }
 
 func compareCert(t *rapid.T, tpl, iss, got *gx.Certificate, subj *sm2.PublicKey) {
 	f := func(format string, a ...any) { t.Fatalf("parsed certificate differs from template: "+format, a...) }
+	// what the template asks for, with the fields that an ExtraExtension of the same OID replaces
+	{
+		w := *tpl
+		w.AuthorityKeyId = nil
+		for _, e := range tpl.ExtraExtensions {
+			for _, o := range overrideCatalogue {
+				if e.Id.Equal(o.id) {
+					o.apply(&w)
+					R.Class("extra_overrides:" + o.name)
+				}
+			}
+		}
+		tpl = &w
+	}
+	seen := map[string]bool{}
+	for _, e := range got.Extensions {
+		if seen[e.Id.String()] {
+			f("extension %v appears twice in the issued certificate", e.Id)
+		}
+		seen[e.Id.String()] = true
+	}
 	if got.SerialNumber.Cmp(tpl.SerialNumber) != 0 {
 		f("serial %v want %v", got.SerialNumber, tpl.SerialNumber)
 	}
@@ -497,7 +549,11 @@ func compareCert(t *rapid.T, tpl, iss, got *gx.Certificate, subj *sm2.PublicKey)
 	if !bytes.Equal(got.SubjectKeyId, tpl.SubjectKeyId) {
 		f("SubjectKeyId %x want %x", got.SubjectKeyId, tpl.SubjectKeyId)
 	}
-	if !bytes.Equal(wantIss, wantSubj) && !bytes.Equal(got.AuthorityKeyId, iss.SubjectKeyId) {
+	if tpl.AuthorityKeyId != nil {
+		if !bytes.Equal(got.AuthorityKeyId, tpl.AuthorityKeyId) {
+			f("AuthorityKeyId %x want the ExtraExtensions value %x", got.AuthorityKeyId, tpl.AuthorityKeyId)
+		}
+	} else if !bytes.Equal(wantIss, wantSubj) && !bytes.Equal(got.AuthorityKeyId, iss.SubjectKeyId) {
 		f("AuthorityKeyId %x want issuer SKI %x", got.AuthorityKeyId, iss.SubjectKeyId)
 	}
 	if !eqStrs(got.DNSNames, tpl.DNSNames) || !eqStrs(got.EmailAddresses, tpl.EmailAddresses) {
